@@ -23,7 +23,7 @@ T = {
     'C08': ('Hypothesis states x all 2^N subsystems vs dense partial-trace entropy (N<=5) and the rank formula with own GF(2) elimination (N<=10); metamorphic regeneration and local-gate invariance; z2rank kernel; entropy along in-place evolution histories of one state object',
             'Every subsystem of every generated state (pure and mixed) is checked, as index list and as boolean mask; entropy must not depend on the generating set nor change under Clifford gates inside or outside the region; both back ends. Entropy is re-queried along histories of in-place evolutions of one state object; all accepted subsystem argument forms.'),
     'C09': ('Hypothesis gate programs x 20 configurations (class x copy/compose x compile level) x 3 input kinds vs gate-by-gate application and the reference Clifford product; locality of single gates; build histories (take / compile / compile-layers / copy interleaved), compose histories over several circuits, atheris fuzzing of circuit.py',
-            'The circuit action is compared with the ordered product of its gates for every configuration; layer packing is deliberately not asserted. N<=5, programs to 14 gates; torch: uncompiled CliffordCircuit. Also circuits that are compiled, extended and recompiled, accumulator-style compose histories where every circuit is re-checked, and a coverage-guided atheris campaign.'),
+            'The circuit action is compared with the ordered product of its gates for every configuration; layer packing is deliberately not asserted. N<=5, programs to 14 gates; torch: CliffordCircuit in all copy/compose/compile configurations. Also circuits that are compiled, extended and recompiled, accumulator-style compose histories where every circuit is re-checked, and a coverage-guided atheris campaign.'),
     'C10': ('Hypothesis gates / layers / circuits (same programs and configurations as C09): round trips in both orders, backward vs reference inverse, compiled backward map vs inverse of the compiled forward map; build histories incl. legitimately stale compiled circuits; call sequences on one gate/layer/circuit object',
             'backward(forward(x)) = x and forward(backward(x)) = x on lists with all phases, polynomials and states of any rank, for lazily inverted and compiled maps; both back ends where the API exists. Also circuits extended after compilation and arbitrary forward/backward call sequences on one object; generators given as Pauli, string or PauliMonomial.'),
     'C11': ('exhaustive: gate tables vs tables written from the statement and re-derived from the unitaries; all placements N<=3(4) x all phased operators; closure of C(0..23) under compose/inverse; rejections; call sequences and copies of a used gate object',
